@@ -5,6 +5,7 @@ package c04
 
 import (
 	"context"
+	"crypto/sha256"
 	"fmt"
 	"strings"
 	"testing"
@@ -40,8 +41,10 @@ func (q Q) ident() string {
 	return fmt.Sprintf("%s|%d|%d|%v%v%v", q.Name.Lower(), q.Type, q.Class, q.AD, q.CD, q.DO)
 }
 
+// exact identifies the question byte for byte; it is short enough for one TXT string.
 func (q Q) exact() string {
-	return fmt.Sprintf("%x|%d|%d|%v%v%v", q.Name.Wire(), q.Type, q.Class, q.AD, q.CD, q.DO)
+	h := sha256.Sum256(q.Name.Wire())
+	return fmt.Sprintf("%x|%d|%d|%v%v%v", h[:12], q.Type, q.Class, q.AD, q.CD, q.DO)
 }
 
 func (q Q) ctx() *query_context.Context {
@@ -179,7 +182,7 @@ func checkPair(a, b Q) *hx.Failure {
 	p2 := cachex.New(4096, 0)
 	defer p2.Close()
 	if code, body := p2.Load(d); code != 200 {
-		return hx.Failf("C04/harness", "load_dump: %d %s", code, body)
+		return hx.Failf("C04/reload-failed", "the instance's own dump is refused by /load_dump: %d %s", code, body)
 	}
 	for _, q := range []Q{a, b} {
 		q.ID += 2
